@@ -8,12 +8,12 @@ from symx.world import World, func_hash
 _WORLDS = {}
 
 
-def world(key, symbolic, modules, extra=None, extra_by_module=None, nodes=False):
+def world(key, symbolic, modules, extra=None, extra_by_module=None, nodes=False, desugar=()):
     """One World per (key, mode) per process.  Stubs that need per-path state should hold it in
     a mutable object created by the harness body."""
     k = (key, bool(symbolic))
     if k not in _WORLDS:
-        _WORLDS[k] = World(modules, symbolic=symbolic, extra=extra, extra_by_module=extra_by_module, nodes=nodes)
+        _WORLDS[k] = World(modules, symbolic=symbolic, extra=extra, extra_by_module=extra_by_module, nodes=nodes, desugar=desugar)
     return _WORLDS[k]
 
 
